@@ -412,7 +412,44 @@ pub fn check_c03(case: &Case, st: &mut Stats) -> Verdict {
 
 // ------------------------------------------------------------------------------------- C16
 
+/// Prefix families: each stem K is followed by dozens of longer keys K ++ [c] ++ ..., with values
+/// large enough that the extensions of one stem span many data blocks; the history positions the
+/// cursor on K and then seeks K ++ [b].
+fn gen_c16_families(rng: &mut Rng) -> Case {
+    let levels = *rng.pick(&[0u8, 0, 1, 2]);
+    let stems = rng.urange(2, 8);
+    let vlen = rng.urange(200, 500);
+    let mut ents = Vec::new();
+    let mut stem_keys = Vec::new();
+    for sidx in 0..stems {
+        let stem = vec![b'k', sidx as u8 * 2 + 1, 0x10];
+        stem_keys.push(stem.clone());
+        ents.push((B(stem.clone()), B(vec![sidx as u8; 8])));
+        let c = rng.urange(1, 3) as u8;
+        for j in 0..rng.urange(20, 70) {
+            let mut k = stem.clone();
+            k.push(c);
+            k.extend_from_slice(&(j as u16).to_be_bytes());
+            ents.push((B(k), B(vec![j as u8; vlen])));
+        }
+    }
+    ents.sort();
+    let knobs = Knobs { codec: 0, level: 0, block_size: Some(1024), interval: None, levels, ctor: 0, fin: 0 };
+    let mut steps = Vec::new();
+    for _ in 0..rng.urange(2, 8) {
+        let k = stem_keys[rng.usize_below(stem_keys.len())].clone();
+        steps.push(CursorStep { cur: 0, op: Op::Eq(B(k.clone())) });
+        let mut t = k.clone();
+        t.push(rng.urange(1, 9) as u8);
+        steps.push(CursorStep { cur: 0, op: match rng.below(3) { 0 => Op::Ge(B(t)), 1 => Op::Le(B(t)), _ => Op::Eq(B(t)) } });
+    }
+    Case::Cursor(CursorCase { spec: FileSpec { knobs, entries: Entries::Literal(ents) }, env: crate::env::EnvPlan::whole(), steps, fresh_each: false, v1: false, sparse_hole: None })
+}
+
 pub fn gen_c16(rng: &mut Rng, tier: Tier) -> Case {
+    if rng.chance(1, 8) {
+        return gen_c16_families(rng);
+    }
     let levels = [0u8, 1, 2, 3, 4, 254][rng.weighted(&[20, 20, 25, 15, 15, 5])];
     let maxn: u64 = if levels == 254 {
         30
